@@ -134,6 +134,7 @@ class World(WsWorld):
             fac = aw.WebSocketClientFactory("ws://localhost:9000", **self.fw.factory_kw(self.reactor))
             opts["serverConnectionDropTimeout"] = cfg["scdt"]
         fac.setProtocolOptions(**opts)
+        self.fac = fac
         e, peer = self.build_raw(fac, is_server)
         e.monitor = SenderMonitor("any")
         self.run.log("cfg", self.kind, sorted(cfg.items()), t0)
@@ -260,6 +261,15 @@ class World(WsWorld):
             self.at(self.t_open + ch.pick((3.0, 9.0, 20.0), "t-end"), "end", lambda: None)
         self.delta_close = self.draw_delta("delta-close")
         self.delta_drop = self.draw_delta("delta-drop")
+        if cfg["api"] and ch.flag("factory-reconfigured-while-the-connection-is-open", 0.15):
+            # the application changes the factory's defaults for future connections: this connection keeps the settings
+            # it was made with
+            new_api = ch.pick((0, cfg["api"] * 3), "factory-new-interval")
+
+            def reconf():
+                self.run.fault("factory-autoPingInterval-changed")
+                self.fw.call(self, lambda: self.fac.setProtocolOptions(autoPingInterval=new_api))
+            self.at(self.t_open + 0.01, "factory-reconfigured", reconf)
         # unrelated peer traffic (data frames) now and then
         if ch.flag("chatter", 0.3):
             for k in range(1 + ch.choose(3, "nchat")):
